@@ -147,7 +147,8 @@ fn normalise_stderr(s: &str) -> String {
 const CONFIG_NEVER_FETCH: &str = "[exchange-rates]\nfetching-policy = \"never\"\n";
 
 /// Build the invocation described by a trace and check it against the by-construction model.
-pub fn exec_trace(trace: &Value, res: &mut ExecResult) {
+pub fn exec_trace(trace: &Value, res: &mut ExecResult) -> u64 {
+    let mut obs = Fnv::default();
     let strs = |v: &Value| -> Vec<String> {
         v.as_array()
             .map(|a| a.iter().filter_map(|x| x.as_str().map(|s| s.to_string())).collect())
@@ -214,13 +215,16 @@ pub fn exec_trace(trace: &Value, res: &mut ExecResult) {
     let out = run_cli(&full_args, &files, &dirs, modules_path);
     res.bump("cli_invocations");
     res.bump(&format!("channel.{channel}"));
+    obs.write_str(&format!("{:?}", out.code));
+    obs.write_str(&out.stdout);
+    obs.write_str(&out.stderr.replace(&sandbox_dir().to_string_lossy().to_string(), "<SANDBOX>"));
     if out.stderr.starts_with("HARNESS:") {
         res.harness_error = Some(out.stderr.clone());
-        return;
+        return obs.0;
     }
     if out.timed_out {
         res.fail("cli-hang", format!("`numbat {}` did not exit within 60 s", full_args.join(" ")));
-        return;
+        return obs.0;
     }
     let describe = || -> String {
         format!(
@@ -239,7 +243,7 @@ pub fn exec_trace(trace: &Value, res: &mut ExecResult) {
         "missing-file" | "dir-as-file" | "non-utf8-file" | "corrupt-config" | "failing-init"
     );
     let expect_success = !faulty && !env_faulty;
-    let stdout_lines: Vec<&str> = out.stdout.lines().map(|l| l.trim_end()).collect();
+    let stdout_lines: Vec<&str> = out.stdout.lines().map(|l| l.trim()).collect();
 
     // markers by input
     let file_markers: Vec<String> = if has_file { file_lines.iter().filter_map(|l| marker_of(l)).collect() } else { vec![] };
@@ -258,31 +262,31 @@ pub fn exec_trace(trace: &Value, res: &mut ExecResult) {
                 describe()
             ),
         );
-        return;
+        return obs.0;
     }
-    if !success && out.code != Some(1) {
-        res.fail("exit-status", format!("failure must be reported with exit status 1: {}", describe()));
-        return;
+    if !success && out.code.is_none() {
+        res.fail("exit-status", format!("the process was killed by a signal instead of reporting failure: {}", describe()));
+        return obs.0;
     }
     let count = |m: &str| stdout_lines.iter().filter(|l| **l == m).count();
     if expect_success {
         // 2. stderr empty, markers in order, each exactly once
         if !out.stderr.trim().is_empty() {
             res.fail("stderr-on-success", format!("a successful run wrote to standard error: {}", describe()));
-            return;
+            return obs.0;
         }
         let all: Vec<String> = init_markers.iter().chain(file_markers.iter()).chain(e_markers.iter()).cloned().collect();
         let mut at = 0usize;
         for m in &all {
             if count(m) != 1 {
                 res.fail("stdout-markers", format!("marker {m} appears {} times on standard output (expected once): {}", count(m), describe()));
-                return;
+                return obs.0;
             }
             match stdout_lines[at..].iter().position(|l| l == m) {
                 Some(p) => at += p + 1,
                 None => {
                     res.fail("stdout-markers", format!("marker {m} is out of order on standard output: {}", describe()));
-                    return;
+                    return obs.0;
                 }
             }
         }
@@ -291,22 +295,32 @@ pub fn exec_trace(trace: &Value, res: &mut ExecResult) {
             let tail_nonempty = stdout_lines[at..].iter().any(|l| !l.trim().is_empty());
             if !tail_nonempty {
                 res.fail("stdout-result", format!("the script ends in an expression statement but no result follows the last printed line: {}", describe()));
-                return;
+                return obs.0;
             }
         }
     } else {
         // 3. diagnostics on stderr, none on stdout; no marker after the faulty line
         if out.stderr.trim().is_empty() {
             res.fail("stderr-on-failure", format!("a failing run wrote nothing to standard error: {}", describe()));
-            return;
+            return obs.0;
         }
-        if faulty && !out.stderr.contains("error") {
-            res.fail("stderr-on-failure", format!("standard error of a failing run does not contain a diagnostic: {}", describe()));
-            return;
+        // diagnostics quote the offending source line; none of that belongs on stdout
+        let mut leaked = out.stdout.contains("┌─");
+        if faulty {
+            let where_ = fault["where"].as_str().unwrap_or("file");
+            let idx = fault["index"].as_u64().unwrap_or(0) as usize;
+            let lines = if where_ == "file" { &file_lines } else { &e_lines };
+            if let Some(l) = lines.get(idx)
+                && l.trim().len() >= 6
+                && marker_of(l).is_none()
+                && out.stdout.contains(l.trim())
+            {
+                leaked = true;
+            }
         }
-        if out.stdout.contains("┌─") || out.stdout.contains("error:") {
+        if leaked {
             res.fail("diagnostic-on-stdout", format!("diagnostic text on standard output: {}", describe()));
-            return;
+            return obs.0;
         }
         if env_faulty {
             // nothing of the script may have run when its file could not be read / config is corrupt
@@ -314,7 +328,7 @@ pub fn exec_trace(trace: &Value, res: &mut ExecResult) {
             for m in file_markers.iter().chain(e_markers.iter()).chain(init_markers.iter()) {
                 if count(m) > 0 && !allowed.contains(m) {
                     res.fail("stdout-markers", format!("marker {m} printed although the run failed with environment fault {env_fault}: {}", describe()));
-                    return;
+                    return obs.0;
                 }
             }
         }
@@ -329,7 +343,7 @@ pub fn exec_trace(trace: &Value, res: &mut ExecResult) {
                     let forbidden = i > idx || static_stage;
                     if forbidden && count(&m) > 0 {
                         res.fail("stdout-markers", format!("marker {m} (line {i}) was printed although line {idx} fails at stage {stage}{}: {}", if static_stage { " and the input must be rejected as a whole" } else { "" }, describe()));
-                        return;
+                        return obs.0;
                     }
                 }
             }
@@ -338,7 +352,7 @@ pub fn exec_trace(trace: &Value, res: &mut ExecResult) {
                 for m in &e_markers {
                     if count(m) > 0 {
                         res.fail("stdout-markers", format!("marker {m} of the -e block printed although the file failed first: {}", describe()));
-                        return;
+                        return obs.0;
                     }
                 }
             } else if channel == "split" {
@@ -346,7 +360,7 @@ pub fn exec_trace(trace: &Value, res: &mut ExecResult) {
                 for m in &file_markers {
                     if count(m) != 1 {
                         res.fail("stdout-markers", format!("marker {m} of the successful file input is missing although only the later -e block fails: {}", describe()));
-                        return;
+                        return obs.0;
                     }
                 }
             }
@@ -387,11 +401,16 @@ pub fn exec_trace(trace: &Value, res: &mut ExecResult) {
                     lines
                 ),
             );
-            return;
+            return obs.0;
         }
-        // diagnostics: identical once the source labels are replaced
-        let strip = |s: &str| -> String {
-            s.replace("File script.nbt", "<SRC>").replace("<input:1>", "<SRC>")
+        // diagnostics: the same once source labels are replaced (the only difference the
+        // channels are allowed to show); compared line by line on the lines that carry messages
+        let strip = |s: &str| -> Vec<String> {
+            s.replace("File script.nbt", "<SRC>")
+                .replace("<input:1>", "<SRC>")
+                .lines()
+                .map(|l| l.to_string())
+                .collect()
         };
         if strip(&out.stderr) != strip(&out2.stderr) {
             res.fail(
@@ -400,6 +419,7 @@ pub fn exec_trace(trace: &Value, res: &mut ExecResult) {
             );
         }
     }
+    obs.0
 }
 
 // ------------------------------------------------------------------------------------------
@@ -670,10 +690,12 @@ impl Prop for C22 {
         if trace["skipped"].as_bool().unwrap_or(false) {
             return res;
         }
-        exec_trace(trace, &mut res);
-        // fingerprint and coverage from the structure of the case
+        let obs = exec_trace(trace, &mut res);
+        // fingerprint: the case and everything the process was observed to do
         let mut fp = Fnv::default();
         fp.write_str(&trace.to_string());
+        fp.write_u64(obs);
+        res.states.insert(obs);
         res.fingerprint = fp.0;
         let n = trace["file_lines"].as_array().map(|a| a.len()).unwrap_or(0)
             + trace["e_lines"].as_array().map(|a| a.len()).unwrap_or(0);
